@@ -1,11 +1,19 @@
 #!/bin/bash
-# usage: try_mutant.sh <prop> <patch.diff> [extra check args]   — applies the patch to /repo, runs the check, reverts
+# usage: try_mutant.sh <prop> <patch.diff> [extra check args]   — applies the patch to /repo (3-way when the tree has
+# moved since the patch was made), runs the check, reverts
 prop=$1; patch=$2; shift 2
 cd /repo || exit 2
-if ! git apply --check "$patch" 2>/dev/null; then echo "PATCH-DOES-NOT-APPLY $patch"; exit 3; fi
-git apply "$patch"
+if git apply --check "$patch" 2>/dev/null; then
+  git apply "$patch"
+elif git apply --3way "$patch" >/dev/null 2>&1; then
+  git reset -q
+  if git diff --quiet; then echo "PATCH-DOES-NOT-APPLY $patch"; exit 3; fi
+  if grep -rq '^<<<<<<<' $(git diff --name-only); then git checkout -- .; echo "PATCH-CONFLICTS $patch"; exit 3; fi
+else
+  echo "PATCH-DOES-NOT-APPLY $patch"; exit 3
+fi
 /verif/check "$prop" "$@" 2>/tmp/try_mutant.err
 rc=$?
-git checkout -- . 
+git checkout -- .
 echo "exit=$rc"
 exit $rc
